@@ -40,6 +40,7 @@ type sysSpec struct {
 var archNames = []string{"A", "B", "C"}
 
 func isLink(kind string) bool { return kind == "chan" || kind == "tcp" }
+
 // base strips the "-raw" suffix: a "-raw" kind is the same resource bound without Logging/Faulty wrappers.
 func base(kind string) string { return strings.TrimSuffix(kind, "-raw") }
 
